@@ -98,6 +98,7 @@ def main():
             dict(name='lean', path='lean/', serves_properties=sorted(CHECKS), kind_free_text='Lean 4 models, theorems, compiled trace-validation driver (drv)'),
             dict(name='E1-detsched', path='harness/detsched.py', serves_properties=[p for p in sorted(CHECKS)],
                  kind_free_text='deterministic cooperative scheduler for real Python threads + virtual clock'),
+            dict(name='E4-manager-processes', path='harness/e4_mgr.py', serves_properties=['C13', 'C14'], kind_free_text='real ServerProcess + client processes driven through command pipes, one fresh interpreter/session per case'),
         ],
         checks=checks,
         notes='See DESIGN.md. KNOWN_FINDINGS.txt lists known: and fixed: entries.',
